@@ -3,7 +3,11 @@
 // attached — or a SimpleCalo as the collector's callback (calo=1).
 //
 //   run prob=simple|mock slots=N streams=K prims=N seed=S assign=<s0,s1,...> mode=threads|serial
-//       calo=0|1 lazy=0|1
+//       calo=0|1 sched=<seed>
+//     sched != 0 : schedule perturbation — every thread draws from its own SplitMix64
+//                  (seeded by sched and its stream id) and yields / sleeps 0-200 us before it
+//                  constructs its Stepper, before every step and inside the step (a user_pre
+//                  action), so that different seeds give different interleavings
 //     assign[e] = stream that transports event e (event id e, primaries seed S*1000+e)
 //     mode=threads : one std::thread per stream; every thread constructs its Stepper itself
 //                    (as celer-sim's Runner does lazily), waits at a barrier, then transports
@@ -20,6 +24,9 @@
 #include <mutex>
 #include <thread>
 
+#include <chrono>
+
+#include "celeritas/global/ActionInterface.hh"
 #include "celeritas/user/ActionDiagnostic.hh"
 #include "celeritas/user/SimpleCalo.hh"
 #include "celeritas/user/StepCollector.hh"
@@ -60,6 +67,38 @@ class Barrier
     std::mutex m_;
     std::condition_variable cv_;
     int n_, count_{0};
+};
+
+//! per-stream schedule perturbation (element s is only ever touched by the thread of stream s)
+struct Perturb
+{
+    std::vector<h3::SplitMix64> rng;
+    bool on = false;
+    void operator()(size_type s)
+    {
+        if (!on)
+            return;
+        auto k = rng[s].below(8);
+        if (k < 3)
+            std::this_thread::yield();
+        else if (k == 3)
+            std::this_thread::sleep_for(std::chrono::microseconds(rng[s].below(200)));
+    }
+};
+
+class PerturbAction final : public CoreStepActionInterface, public ConcreteAction
+{
+  public:
+    PerturbAction(ActionId id, Perturb* p) : ConcreteAction(id, "verif-perturb"), p_(p) {}
+    StepActionOrder order() const final { return StepActionOrder::user_pre; }
+    void step(CoreParams const&, CoreStateHost& state) const final
+    {
+        (*p_)(state.stream_id().get());
+    }
+    void step(CoreParams const&, CoreStateDevice&) const final {}
+
+  private:
+    Perturb* p_;
 };
 
 std::uint64_t hash_map(std::map<std::string, size_type> const& m)
@@ -146,6 +185,18 @@ void run(std::map<std::string, std::string> const& kv)
     }
     auto ad = ActionDiagnostic::make_and_insert(*prob->core);
     auto sd = StepDiagnostic::make_and_insert(*prob->core, 8);
+    Perturb perturb;
+    {
+        std::uint64_t sched = h3::kv_num(kv, "sched", 0);
+        perturb.on = sched != 0 && threads;
+        for (size_type s = 0; s < K; ++s)
+            perturb.rng.emplace_back(sched * 0x9E3779B97F4A7C15ull + s * 7919 + 1);
+        if (perturb.on)
+        {
+            prob->actions().insert(
+                std::make_shared<PerturbAction>(prob->actions().next_id(), &perturb));
+        }
+    }
 
     std::vector<EventOut> results(assign.size());
     Barrier barrier(threads ? int(K) : 1);
@@ -159,6 +210,8 @@ void run(std::map<std::string, std::string> const& kv)
             si.params = core;
             si.stream_id = StreamId{s};
             si.num_track_slots = slots;
+            perturb(s);
+            perturb(s);
             Stepper<MemSpace::host> step(si);
             if (threads)
             {
@@ -179,10 +232,12 @@ void run(std::map<std::string, std::string> const& kv)
                                  r.queued);
                     ++loops;
                 };
+                perturb(s);
                 StepperResult r = step(make_span(primaries));
                 add(r);
                 while (r && loops < maxloops)
                 {
+                    perturb(s);
                     r = step();
                     add(r);
                 }
